@@ -41,12 +41,12 @@ theorem rpow_as_two (X y : ℝ) (hX : 0 < X) : X ^ y = (2:ℝ) ^ (Real.logb 2 X 
   field_simp
 
 /-- real-arithmetic core of the `powf` analysis -/
-theorem powf_core (lh L y z r v : ℝ) (hl : |lh - L| ≤ 112 / 10 ^ 7 + (1 / 16777216) * |L|)
+theorem powf_core (lh L y z r v : ℝ) (hl : |lh - L| ≤ 114 / 10 ^ 7 + (1 / 16777216) * |L|)
     (hz : |z - lh * y| ≤ (1 / 16777216) * |lh * y| + 1 / 10 ^ 40) (hy : |y| ≤ 80) (hLy : |L * y| ≤ 117)
     (hv : v = (2:ℝ) ^ (L * y)) (hr : |r - (2:ℝ) ^ z| ≤ (1734 / 10 ^ 7) * (2:ℝ) ^ z) :
     |z - L * y| ≤ 1 / 1000 ∧ |r - v| ≤ (25 / 10 ^ 5 + (8 / 10 ^ 6) * |y|) * v := by
   have hy0 := abs_nonneg y
-  have h1 : |lh * y - L * y| ≤ (112 / 10 ^ 7) * |y| + (1 / 16777216) * |L * y| := by
+  have h1 : |lh * y - L * y| ≤ (114 / 10 ^ 7) * |y| + (1 / 16777216) * |L * y| := by
     have e : lh * y - L * y = (lh - L) * y := by ring
     rw [e, abs_mul, abs_mul]
     have := mul_le_mul_of_nonneg_right hl hy0
@@ -54,7 +54,7 @@ theorem powf_core (lh L y z r v : ℝ) (hl : |lh - L| ≤ 112 / 10 ^ 7 + (1 / 16
   have h2 : |lh * y| ≤ 118 := by
     have := abs_sub_abs_le_abs_sub (lh * y) (L * y)
     nlinarith
-  have hΔ : |z - L * y| ≤ (112 / 10 ^ 7) * |y| + 141 / 10 ^ 7 := by
+  have hΔ : |z - L * y| ≤ (114 / 10 ^ 7) * |y| + 141 / 10 ^ 7 := by
     have e : z - L * y = (z - lh * y) + (lh * y - L * y) := by ring
     rw [e]
     refine le_trans (abs_add_le _ _) ?_
@@ -67,11 +67,11 @@ theorem powf_core (lh L y z r v : ℝ) (hl : |lh - L| ≤ 112 / 10 ^ 7 + (1 / 16
   rw [e, ← hv] at hp
   set w := (2:ℝ) ^ z with hw
   have hwpos : 0 < w := Real.rpow_pos_of_pos (by norm_num) _
-  have hwv : |w - v| ≤ ((694 / 1000) * ((112 / 10 ^ 7) * |y| + 141 / 10 ^ 7)) * v := by
+  have hwv : |w - v| ≤ ((694 / 1000) * ((114 / 10 ^ 7) * |y| + 141 / 10 ^ 7)) * v := by
     refine le_trans hp ?_
     apply mul_le_mul_of_nonneg_right _ hpos.le
     nlinarith
-  have hrel := Exp2.rel_trans v w r ((694 / 1000) * ((112 / 10 ^ 7) * |y| + 141 / 10 ^ 7)) (1734 / 10 ^ 7) hpos.le
+  have hrel := Exp2.rel_trans v w r ((694 / 1000) * ((114 / 10 ^ 7) * |y| + 141 / 10 ^ 7)) (1734 / 10 ^ 7) hpos.le
     (by positivity) (by norm_num) hwv (by rw [abs_of_pos hwpos]; exact hr)
   refine le_trans hrel ?_
   apply mul_le_mul_of_nonneg_right _ hpos.le
@@ -147,7 +147,7 @@ theorem powf_close (fm : Bool) (x y : Nat) (h1 : 8388608 ≤ x) (h2 : x < 213909
   have hze' : |z - lh * Y| ≤ (1 / 16777216) * |lh * Y| + 1 / 10 ^ 40 := by rw [abs_mul, ← hu']; linarith
   -- exp2 needs |z| ≤ 124: from the core bound |z - L Y| ≤ 1/1000
   have hzabs : |z| ≤ 124 := by
-    have h1' : |lh * Y - L * Y| ≤ (112 / 10 ^ 7) * |Y| + (1 / 16777216) * |L * Y| := by
+    have h1' : |lh * Y - L * Y| ≤ (114 / 10 ^ 7) * |Y| + (1 / 16777216) * |L * Y| := by
       have e : lh * Y - L * Y = (lh - L) * Y := by ring
       rw [e, abs_mul, abs_mul]
       have := mul_le_mul_of_nonneg_right hle (abs_nonneg Y)
